@@ -45,7 +45,9 @@ def query(repo: Repo, chk: Check, f: Func, resolver: str) -> None:
             continue
         chk.count("query paths")
         given = None
-        for c, pol in st.conds:
+        from .c11 import implied
+
+        for c, pol in implied(st.conds):
             if c.info.get("truthy") == "domain_name":
                 given = pol
         calls = [c for c in st.calls if c.name == resolver]
@@ -69,9 +71,15 @@ def query(repo: Repo, chk: Check, f: Func, resolver: str) -> None:
         chk.ob("O1", site, okr, "record type SRV" if okr else f"record type is {rd!r}")
         se = calls[0].kwargs.get("search")
         chk.ob("O1", site, se is True, "search=True (search list used for relative names)" if se is True else f"search argument is {se!r}")
-        gh = [c for c in st.calls if c.name.endswith("_get_highest_answer")]
-        okg = len(gh) == 1 and isinstance(out.value, CallVal) and out.value.rec is gh[0] and isinstance(gh[0].arg(0), CallVal) and gh[0].arg(0).rec is calls[0]
-        chk.ob("O1", site, okg, "returns _get_highest_answer(<answer of this query>)" if okg else "the function does not return _get_highest_answer applied to the answer of this query")
+    # the answer of that query is what gets ranked (path summaries: local names and temporaries do not matter)
+    from sa.pathsum import Summary
+
+    rname = resolver.rsplit(".", 1)[-1]
+    for ps in Summary(f).returning():
+        rc = [c for c in ps.calls(rname) if ps.text(t.cast(ast.Call, c.tree).func) == resolver]
+        v = ps.value
+        okg = len(rc) == 1 and isinstance(v, ast.Call) and ps.text(v.func) == "_get_highest_answer" and len(v.args) == 1 and ps.key(v.args[0]) == ps.key(rc[0].tree)
+        chk.ob("O1", Site.of(f, ps.exit_node), okg, "returns _get_highest_answer(<answer of this query>)" if okg else "the function does not return _get_highest_answer applied to the answer of this query")
 
 
 def selection(repo: Repo, chk: Check) -> None:
@@ -187,18 +195,17 @@ def mapping(repo: Repo, chk: Check) -> None:
     if not ok:
         return
     var = loops[0].target.id  # type: ignore[attr-defined]
+    from .util import args_of, prov_text
+
     for c in ctors:
         site = Site.of(f, c)
-        kws = {k.arg: k.value for k in c.keywords if k.arg}
-        fields = ["target", "port", "weight", "priority"]
-        for i, a in enumerate(c.args):
-            kws.setdefault(fields[i], a)
+        kws = args_of(repo, f, c)
         for name in ("port", "weight", "priority"):
             v = kws.get(name)
-            okf = v is not None and unparse(v) == f"{var}.{name}"
+            okf = v is not None and prov_text(f, v, c) == f"{var}.{name}"
             chk.ob("O3", site, okf, f"{name} copied" if okf else f"SrvRecord.{name} is built from {unparse(v) if v is not None else 'nothing'}, not from {var}.{name}")
         tv = kws.get("target")
-        ttxt = unparse(tv) if tv is not None else ""
+        ttxt = prov_text(f, tv, c) if tv is not None else ""
         okt = ttxt in (f"str({var}.target).rstrip('.')", f"str({var}.target).removesuffix('.')", f"{var}.target.to_text().rstrip('.')", f"{var}.target.to_text(omit_final_dot=True)")
         chk.ob("O3", site, okt, "target = text of the record target without trailing dot" if okt else f"SrvRecord.target is '{ttxt}': the trailing dot must be stripped only if present and nothing else removed")
     # the ranked collection is the list these records were appended to
